@@ -200,11 +200,24 @@ C11R(e) ==
 
 \* C02: hostile input on bounded readers: in bounds, bounded allocation, reusable destination
 AllocBound(n) == 4096 + 256 * n
+\* "valid to inspect": whatever a read leaves behind is a value of the destination's type - in particular the size member of
+\* a bounded logical buffer stays within the capacity of its array (walking data[0 .. count) must stay inside the object)
+RECURSIVE Inspectable(_, _)
+Inspectable(S, v) ==
+  CASE S.k = "lbuf" -> LET cnt == NatOf(IF S.ss THEN SignExt(v.c, 8) ELSE ZeroExt(v.c, 8)) IN
+                       (S.unb \/ (cnt # Huge /\ cnt <= S.n)) /\ \A j \in 1..Len(v.n) : Inspectable(S.e, v.n[j])
+    [] S.k \in {"struct", "tup", "pair"} -> \A j \in 1..Len(S.m) : Inspectable(S.m[j], v.m[j])
+    [] S.k \in {"vec", "arr", "carr"} -> \A j \in 1..Len(v.n) : Inspectable(S.e, v.n[j])
+    [] S.k = "opt" -> \A j \in 1..Len(v.o) : Inspectable(S.e, v.o[j])
+    [] S.k \in {"wrap", "ref"} -> Inspectable(S.e, v)
+    [] S.k = "table" -> \A j \in 1..Len(S.ents) : (S.ents[j].act /\ v.t[j].p) => Inspectable(S.ents[j].e, v.t[j].v)
+    [] OTHER -> TRUE
 C02R(e) ==
   Tag(e.ledger.born = e.ledger.died, "ledger")
   \cup UnionOver(Len(e.items), LAMBDA i :
        LET it == e.items[i] IN
        Tag(~Has(it, "oob"), "oob")
+       \cup Tag(~Has(it, "v") \/ Inspectable(T(it.tid), it.v), "destination-not-inspectable")
        \* the input length of a BoundedReader over a stream is its byte limit (its Ensure can check nothing else)
        \cup Tag(~Has(it, "alloc") \/ it.alloc <= AllocBound(IF e.rk.b /\ e.rk.k \in {"sstream", "fstream", "fd"}
                                                                 THEN Max(Len(e.src), e.rk.lim) ELSE Len(e.src)), "alloc")
@@ -248,7 +261,7 @@ C07R(e) ==
 \* base/serializer.h specializes each) behave alike: documented bytes, exact size, value back, all bytes consumed
 FormName(f) == CASE f = 0 -> "by-value" [] f = 1 -> "by-pointer" [] f = 2 -> "by-unique_ptr"
                  [] f = 3 -> "constexpr-writer/pedantic-reader" [] f = 4 -> "pedantic-writer/buffer-reader"
-                 [] OTHER -> "stream-writer/stream-reader"
+                 [] f = 5 -> "stream-writer/stream-reader" [] OTHER -> "fd-writer/fd-reader-move-assigned"
 FormsFails(e) ==
   UnionOver(Len(e.steps), LAMBDA i :
     LET s == e.steps[i]
